@@ -29,7 +29,7 @@
 
 int
 psf_store_string (SF_PRIVATE *psf, int str_type, const char *str)
-{	char	new_str [128] ;
+{	char	*new_str = NULL ;
 	size_t	str_len ;
 	int		k, str_flags ;
 
@@ -89,15 +89,18 @@ psf_store_string (SF_PRIVATE *psf, int str_type, const char *str)
 						** If the supplied string does not already contain a
 						** libsndfile-X.Y.Z component, then add it.
 						*/
-						if (strlen (str) == 0)
-							snprintf (new_str, sizeof (new_str), "%s-%s", PACKAGE_NAME, PACKAGE_VERSION) ;
-						else
-							snprintf (new_str, sizeof (new_str), "%s (%s-%s)", str, PACKAGE_NAME, PACKAGE_VERSION) ;
-						}
-					else
-						snprintf (new_str, sizeof (new_str), "%s", str) ;
+						size_t new_len = strlen (str) + strlen (PACKAGE_NAME) + strlen (PACKAGE_VERSION) + 5 ;
 
-					str = new_str ;
+						if ((new_str = malloc (new_len)) == NULL)
+							return SFE_MALLOC_FAILED ;
+
+						if (strlen (str) == 0)
+							snprintf (new_str, new_len, "%s-%s", PACKAGE_NAME, PACKAGE_VERSION) ;
+						else
+							snprintf (new_str, new_len, "%s (%s-%s)", str, PACKAGE_NAME, PACKAGE_VERSION) ;
+
+						str = new_str ;
+						} ;
 					} ;
 				break ;
 
@@ -128,7 +131,7 @@ psf_store_string (SF_PRIVATE *psf, int str_type, const char *str)
 
 		char * new_storage = realloc(temp, newlen);
 		if (new_storage == NULL)
-		{
+		{	free (new_str) ;
 			return SFE_MALLOC_FAILED ;
 			} else {
 			psf->strings.storage = new_storage;
@@ -153,6 +156,8 @@ psf_store_string (SF_PRIVATE *psf, int str_type, const char *str)
 	psf->strings.storage_used += str_len ;
 
 	psf->strings.flags |= str_flags ;
+
+	free (new_str) ;
 
 #if STRINGS_DEBUG
 	printf ("storage_used         : %zd / %zd\n", psf->strings.storage_used, psf->strings.storage_len) ;
